@@ -476,8 +476,16 @@ def rule_R(toks, au, opts=None):
             arg = [x.text for x in toks[i + 3:k]]
             if "await" in arg or "self" in arg and False:
                 raise Undecided("map_err closure with effects")
-            au.note("R", ".map_err(…) -> .vx_map_err()")
-            out += [t, Tok("id", "vx_map_err", ""), Tok("p", "(", ""), Tok("p", ")", "")]
+            nm_ = "vx_map_err_s" if opts.get("maperr") == "string" else "vx_map_err"
+            au.note("R", f".map_err(…) -> .{nm_}()")
+            out += [t, Tok("id", nm_, ""), Tok("p", "(", ""), Tok("p", ")", "")]
+            i = k + 1
+            continue
+        # .ok_or_else(closure) -> .vx_ok_or_s()   (None becomes an opaque error value)
+        if is_p(t, ".") and is_id(toks[i + 1], "ok_or_else") and is_p(toks[i + 2], "("):
+            k = match_close(toks, i + 2)
+            au.note("R", ".ok_or_else(…) -> .vx_ok_or_s()")
+            out += [t, Tok("id", "vx_ok_or_s", ""), Tok("p", "(", ""), Tok("p", ")", "")]
             i = k + 1
             continue
         # X.drain(..n);  ->  vx_drain_to(&mut X, n);
@@ -672,6 +680,9 @@ def _expr_start(out):
     k = len(out) - 1
     while k >= 0:
         t = out[k]
+        if is_p(t, "?"):
+            k -= 1
+            continue
         if t.kind == "p" and t.text in CLOSE:
             k = match_open(out, k) - 1
             continue
